@@ -1,4 +1,5 @@
 import Lemmas.Diff.ConvergeSchema
+import Lemmas.Diff.Callable
 /-!
 # C06 — autogenerate is quiet on a matching database and converges in one pass (SQLite)
 
@@ -305,5 +306,21 @@ theorem converge_partial (cfg : Cfg) (a b : Schema) (hwfA : WF a) (hwfB : WF b) 
       simp only at hTn
       rw [hTn]
       exact newTable_quiet cfg tb hwt.cols_nodup (hok tb htb.1) hwt.named_nodup
+
+end C06
+
+/-! ### comparison callables that defer -/
+namespace C06
+open Model.Diff Spec.Diff Lemmas.Diff
+
+/-- quiet and converge also hold when `compare_type` / `compare_server_default` are callables that
+answer `None` for every column (they compute the default diff) -/
+theorem quiet_partial_deferring (cfg : Cfg) (a : Schema) (hwf : WF a) (hok : SchemaOk cfg a) :
+    diffV {} cfg (reflect (createAll a)) a = [] := by
+  rw [diffV_nil]; exact quiet_partial cfg a hwf hok
+
+theorem converge_partial_deferring (cfg : Cfg) (a b : Schema) (hwfA : WF a) (hwfB : WF b) (hok : SchemaOk cfg b) :
+    diffV {} cfg (reflect (applyAll (createAll a) (diffV {} cfg (reflect (createAll a)) b))) b = [] := by
+  rw [diffV_nil, diffV_nil]; exact converge_partial cfg a b hwfA hwfB hok
 
 end C06
